@@ -271,8 +271,8 @@ class InterleavedSampler:
                         if config.every_n_epochs is not None:
                             # can only occour at the end of an epoch
                             should_iter = sample_in_epoch == samples_per_epoch and epoch % config.every_n_epochs == 0
-                        if config.every_n_updates is not None:
-                            should_iter = update % config.every_n_updates == 0
+                        if config.every_n_updates is not None and update % config.every_n_updates == 0:
+                            should_iter = True
                         if config.every_n_samples is not None:
                             if sample % config.every_n_samples == 0:
                                 should_iter = True
